@@ -3,6 +3,7 @@
 use std::io::{BufRead, Write};
 
 mod codec;
+mod dictb;
 mod entropy;
 mod matcher;
 mod prog;
@@ -27,6 +28,7 @@ fn main() {
         "xxh" => xxh::run_line,
         "entropy" => entropy::run_line,
         "matcher" => matcher::run_line,
+        "dictb" => dictb::run_line,
         _ => {
             eprintln!("usage: zh <pure> < cases");
             std::process::exit(2);
